@@ -213,6 +213,10 @@ struct Target {
     label: String,
     inst: Vec<(usize, usize, F)>,
     seeds: Vec<((usize, usize), F)>,
+    /// the copy constraints tying the *output* positions to the instance are lifted during the
+    /// search: the prover may end at any output, the pair (inputs, outputs) the final table binds
+    /// is judged afterwards
+    free_outputs: bool,
 }
 
 fn slot_targets<V: Cv>(e: &Entry<V>, vals: &[Val], pi: &[F]) -> Vec<Target> {
@@ -225,53 +229,65 @@ fn slot_targets<V: Cv>(e: &Entry<V>, vals: &[Val], pi: &[F]) -> Vec<Target> {
         match (k, v) {
             (Kind::P, Val::P(p)) => {
                 let half = w / 2;
-                out.push(Target { label: format!("{side}@{pos}:x+1"), inst: vec![(1, pos, pi[pos] + F::ONE)], seeds: vec![] });
-                out.push(Target { label: format!("{side}@{pos}:y+1"), inst: vec![(1, pos + half, pi[pos + half] + F::ONE)], seeds: vec![] });
+                out.push(Target { label: format!("{side}@{pos}:x+1"), inst: vec![(1, pos, pi[pos] + F::ONE)], seeds: vec![], free_outputs: false });
+                out.push(Target { label: format!("{side}@{pos}:y+1"), inst: vec![(1, pos + half, pi[pos + half] + F::ONE)], seeds: vec![], free_outputs: false });
                 if !c.is_id(p) {
                     let np = c.neg(p);
                     if np != *p {
-                        out.push(Target { label: format!("{side}@{pos}:negated"), inst: set(pos, &V::enc(&Val::P(np))), seeds: vec![] });
+                        out.push(Target { label: format!("{side}@{pos}:negated"), inst: set(pos, &V::enc(&Val::P(np))), seeds: vec![], free_outputs: false });
                     }
                     // both coordinates swapped: (y, x) — off the curve in general
                     if let Pt::Aff(x, y) = p {
                         if x != y {
                             let sw: Vec<F> = [V::enc(&Val::C(y.clone())), V::enc(&Val::C(x.clone()))].concat();
                             if sw.len() == w {
-                                out.push(Target { label: format!("{side}@{pos}:swapped-coordinates"), inst: set(pos, &sw), seeds: vec![] });
+                                out.push(Target { label: format!("{side}@{pos}:swapped-coordinates"), inst: set(pos, &sw), seeds: vec![], free_outputs: false });
                             }
                         }
                     }
                 }
                 let q = c.add(p, &c.gen);
-                out.push(Target { label: format!("{side}@{pos}:plus-generator"), inst: set(pos, &V::enc(&Val::P(q))), seeds: vec![] });
+                out.push(Target { label: format!("{side}@{pos}:plus-generator"), inst: set(pos, &V::enc(&Val::P(q))), seeds: vec![], free_outputs: false });
                 if V::FOREIGN {
                     // identity flag flipped (the flag lives on top of x's first limb)
                     let flag = bigf(&(Big::one() << (if V::NAME == "secp256k1" { 64u32 } else { 56u32 })));
                     let nv = if c.is_id(p) { pi[pos] - flag } else { pi[pos] + flag };
-                    out.push(Target { label: format!("{side}@{pos}:identity-flag-flipped"), inst: vec![(1, pos, nv)], seeds: vec![] });
+                    out.push(Target { label: format!("{side}@{pos}:identity-flag-flipped"), inst: vec![(1, pos, nv)], seeds: vec![], free_outputs: false });
                     if !c.is_id(p) {
-                        out.push(Target { label: format!("{side}@{pos}:to-identity"), inst: set(pos, &V::enc(&Val::P(Pt::Inf))), seeds: vec![] });
+                        out.push(Target { label: format!("{side}@{pos}:to-identity"), inst: set(pos, &V::enc(&Val::P(Pt::Inf))), seeds: vec![], free_outputs: false });
                     }
                 } else {
                     // Jubjub: points outside the prime-order subgroup / of low order
                     let tors = mzv::refs::curve::edwards_torsion8(&mzv::refs::curve::jubjub());
                     for (name, t) in [("order8", &tors[0]), ("order4", &tors[1]), ("order2", &tors[3])] {
                         let q = c.add(p, t);
-                        out.push(Target { label: format!("{side}@{pos}:plus-{name}-torsion"), inst: set(pos, &V::enc(&Val::P(q))), seeds: vec![] });
+                        out.push(Target { label: format!("{side}@{pos}:plus-{name}-torsion"), inst: set(pos, &V::enc(&Val::P(q))), seeds: vec![], free_outputs: false });
                     }
-                    out.push(Target { label: format!("{side}@{pos}:low-order-point"), inst: set(pos, &V::enc(&Val::P(tors[0].clone()))), seeds: vec![] });
+                    out.push(Target { label: format!("{side}@{pos}:low-order-point"), inst: set(pos, &V::enc(&Val::P(tors[0].clone()))), seeds: vec![], free_outputs: false });
                 }
             }
-            (Kind::B, _) => out.push(Target { label: format!("{side}@{pos}:bit-complement"), inst: vec![(1, pos, F::ONE - pi[pos])], seeds: vec![] }),
+            (Kind::B, _) => out.push(Target { label: format!("{side}@{pos}:bit-complement"), inst: vec![(1, pos, F::ONE - pi[pos])], seeds: vec![], free_outputs: false }),
             _ => {
-                out.push(Target { label: format!("{side}@{pos}:+1"), inst: vec![(1, pos, pi[pos] + F::ONE)], seeds: vec![] });
+                out.push(Target { label: format!("{side}@{pos}:+1"), inst: vec![(1, pos, pi[pos] + F::ONE)], seeds: vec![], free_outputs: false });
                 if w > 1 {
-                    out.push(Target { label: format!("{side}@{pos}:top-limb+1"), inst: vec![(1, pos + w - 1, pi[pos + w - 1] + F::ONE)], seeds: vec![] });
+                    out.push(Target { label: format!("{side}@{pos}:top-limb+1"), inst: vec![(1, pos + w - 1, pi[pos + w - 1] + F::ONE)], seeds: vec![], free_outputs: false });
                 }
             }
         }
     }
     out.retain(|t| !t.inst.is_empty());
+    if !e.op.out_schema().is_empty() {
+        let twins: Vec<Target> = out
+            .iter()
+            .filter(|t| t.label.starts_with("in@"))
+            .filter(|t| {
+                let kind = t.label.split(':').nth(1).unwrap_or("");
+                matches!(kind, "+1" | "bit-complement" | "x+1" | "negated" | "top-limb+1")
+            })
+            .map(|t| Target { label: format!("free-outputs|{}", t.label), inst: t.inst.clone(), seeds: vec![], free_outputs: true })
+            .collect();
+        out.extend(twins);
+    }
     out
 }
 
@@ -303,6 +319,7 @@ pub fn attack_stage<V: Cv>(e: &Entry<V>, input: &Vec<Val>, input_index: usize, k
             Ok(Ok(t2)) => t2.advice == honest_adv,
             _ => false,
         };
+    let n_in_pos = e.n_input_positions(input);
     let (budget, max_targets) = if k >= 14 {
         (&opts.big, opts.max_targets_big)
     } else if V::FOREIGN {
@@ -316,23 +333,39 @@ pub fn attack_stage<V: Cv>(e: &Entry<V>, input: &Vec<Val>, input_index: usize, k
     if targets.len() > max_targets {
         // fixed priority of attack kinds (outputs before inputs within a kind), then a seeded
         // choice among the rest
-        const PRIO: [&str; 9] = ["x+1", "identity-flag-flipped", "negated", "plus-generator", "+1", "bit-complement", "plus-order8-torsion", "y+1", "swapped-coordinates"];
+        const PRIO: [(&str, &str); 17] = [
+            ("ou", "x+1"),
+            ("in", "+1"),
+            ("fr", "+1"),
+            ("in", "x+1"),
+            ("fr", "bit-complement"),
+            ("fr", "x+1"),
+            ("ou", "identity-flag-flipped"),
+            ("in", "identity-flag-flipped"),
+            ("ou", "negated"),
+            ("in", "bit-complement"),
+            ("ou", "plus-generator"),
+            ("ou", "+1"),
+            ("ou", "bit-complement"),
+            ("in", "negated"),
+            ("in", "plus-order8-torsion"),
+            ("ou", "y+1"),
+            ("in", "swapped-coordinates"),
+        ];
+        let prio_of = |t: &Target| {
+            let kind = t.label.split(':').nth(1).unwrap_or("");
+            PRIO.iter().position(|(s, k)| *s == &t.label[..2] && *k == kind)
+        };
         let mut keep: Vec<Target> = vec![];
         let mut rest: Vec<Target> = vec![];
-        let mut taken: BTreeSet<String> = BTreeSet::new();
-        targets.sort_by_key(|t| t.label.starts_with("in@"));
+        let mut taken: BTreeSet<usize> = BTreeSet::new();
         for t in targets {
-            let kind = t.label.split(':').nth(1).unwrap_or("").to_string();
-            if PRIO.contains(&kind.as_str()) && taken.insert(format!("{}{}", &t.label[..2], kind)) {
-                keep.push(t);
-            } else {
-                rest.push(t);
+            match prio_of(&t) {
+                Some(p) if taken.insert(p) => keep.push(t),
+                _ => rest.push(t),
             }
         }
-        keep.sort_by_key(|t| {
-            let kind = t.label.split(':').nth(1).unwrap_or("");
-            (PRIO.iter().position(|p| *p == kind).unwrap_or(99), t.label.starts_with("in@"))
-        });
+        keep.sort_by_key(|t| prio_of(t).unwrap_or(99));
         keep.truncate(max_targets);
         rest.shuffle(&mut rng);
         while keep.len() < max_targets {
@@ -371,8 +404,8 @@ pub fn attack_stage<V: Cv>(e: &Entry<V>, input: &Vec<Val>, input_index: usize, k
             if out_pos < pi.len() {
                 inst.push((1usize, out_pos, pi[out_pos] + F::ONE));
             }
-            targets.push(Target { label: format!("hint-cell@({},{}) with edited output", cell.0, cell.1), inst: inst.clone(), seeds: vec![(cell, nv)] });
-            targets.push(Target { label: format!("hint-cell@({},{})", cell.0, cell.1), inst: vec![], seeds: vec![(cell, nv)] });
+            targets.push(Target { label: format!("hint-cell@({},{}) with edited output", cell.0, cell.1), inst: inst.clone(), seeds: vec![(cell, nv)], free_outputs: false });
+            targets.push(Target { label: format!("hint-cell@({},{})", cell.0, cell.1), inst: vec![], seeds: vec![(cell, nv)], free_outputs: false });
         }
     }
     if timing {
@@ -382,13 +415,36 @@ pub fn attack_stage<V: Cv>(e: &Entry<V>, input: &Vec<Val>, input_index: usize, k
         st.targets += 1;
         rep.eval();
         let t_a = std::time::Instant::now();
+        let saved_copies = if t.free_outputs {
+            let saved = tables.copies.clone();
+            let is_out = |c: &CellRef| matches!(c, CellRef::Instance(1, r) if *r >= n_in_pos);
+            tables.copies.retain(|(a, b)| !is_out(a) && !is_out(b));
+            Some(saved)
+        } else {
+            None
+        };
         let (att, stats) = attack(&mut tables, &t.inst, &t.seeds, budget, &mut rng);
+        if let Some(saved) = saved_copies {
+            tables.copies = saved;
+        }
         if timing {
             eprintln!("[c06-timing] {name} target {}: {:.1}s, {} nodes, found={}", t.label, t_a.elapsed().as_secs_f64(), stats.nodes, att.is_some());
         }
         st.nodes += stats.nodes;
         let Some(_att) = att else { continue };
         let bound = bound_instance(&tables, 1, &pi);
+        if t.free_outputs {
+            // the instance the final table binds; it must satisfy the complete circuit again
+            for (i, v) in bound.iter().enumerate() {
+                tables.instance[1][i] = *v;
+            }
+            if !tables.violations(1).is_empty() {
+                rep.count(&format!("{}.free_output_candidate_not_closed", V::NAME));
+                tables.advice = honest_adv.clone();
+                tables.instance = honest_inst.clone();
+                continue;
+            }
+        }
         let verdict = judge::<V>(e, &bound);
         match &verdict {
             Verdict::Consistent => {
